@@ -402,7 +402,7 @@ fn run_case(stream: Stream, rng: &mut Rng, out: &mut Out) -> Exec {
                 key = if !used.is_empty() && rng.chance(1, 2) {
                     *rng.pick(&used)
                 } else if small_space {
-                    (0x0a000001, 0x0a000002, 17, rng.below(3) as u16)
+                    (0x0a000001 + rng.below(2) as u32, 0x0a000002 + 256 * rng.below(2) as u32, *rng.pick(&[6u8, 17]), rng.below(2) as u16)
                 } else {
                     (rng.below(1 << 32) as u32, rng.below(1 << 32) as u32, rng.below(256) as u8, rng.below(65536) as u16)
                 };
